@@ -148,36 +148,32 @@ Fixpoint split_at_endproc (l : list directive) : list directive * list directive
               end
   end.
 
-Definition split_block (s : st) (b : nat) (offset : Z) : result (nat * option edge * st) :=
-  let x := the_blk s b in
-  if negb ((0 <=? offset) && (offset <=? bsize x)) then Err AssertErr
-  else
-  let end_split := offset =? bsize x in
-  let '(nb, s) := fresh s in
-  let s := set_blk s nb (mk_blk (bk x) (bbi x) (boff x + offset) (bsize x - offset)) in
-  let s := set_blk s b (mk_blk (bk x) (bbi x) (boff x) offset) in
+Definition split_move_syms (s : st) (b nb : nat) : st :=
   (* at_end symbols move to the tail *)
   let '(syms, s) := get_refs s b in
-  let s := fold_left (fun s sy => if sym_at_end s sy then set_direct s sy (Some nb) true else s) syms s in
-  let '(added, s) :=
-    if bkind_eqb (bk x) KCode then
-      let '(add_ft, s) :=
-        if negb end_split then
-          (true, fold_left (fun s e => set_cfg s (cfg_update_edge (cfg s) e (resource_edge e (NB nb)))) (out_edges s b) s)
-        else
-          let fts := fallthrough_targets s b in
-          (match fts with [] => false | _ => true end,
-           fold_left (fun s e => if is_call e then update_return_edges_changing_ft s e fts nb
-                                 else if is_ft e then set_cfg s (cfg_update_edge (cfg s) e (resource_edge e (NB nb)))
-                                 else s)
-                     (out_edges s b) s) in
-      let ft := mk_edge' (NB b) (NB nb) ET_FALLTHROUGH in
-      let s := if add_ft then set_cfg s (cfg_add ft (cfg s)) else s in
-      let s := match aget b (fbb s) with Some f => add_function_block_aux s nb f | None => s end in
-      (if add_ft then Some ft else None, s)
-    else (None, s) in
-  (* comments / padding / symbolicExpressionSizes *)
-  let s := set_otabs s (map (fun t =>
+  fold_left (fun s sy => if sym_at_end s sy then set_direct s sy (Some nb) true else s) syms s.
+
+Definition split_cfg (s : st) (b nb : nat) (code end_split : bool) : option edge * st :=
+  if code then
+    let '(add_ft, s) :=
+      if negb end_split then
+        (true, fold_left (fun s e => set_cfg s (cfg_update_edge (cfg s) e (resource_edge e (NB nb)))) (out_edges s b) s)
+      else
+        let fts := fallthrough_targets s b in
+        (match fts with [] => false | _ => true end,
+         fold_left (fun s e => if is_call e then update_return_edges_changing_ft s e fts nb
+                               else if is_ft e then set_cfg s (cfg_update_edge (cfg s) e (resource_edge e (NB nb)))
+                               else s)
+                   (out_edges s b) s) in
+    let ft := mk_edge' (NB b) (NB nb) ET_FALLTHROUGH in
+    let s := if add_ft then set_cfg s (cfg_add ft (cfg s)) else s in
+    let s := match aget b (fbb s) with Some f => add_function_block_aux s nb f | None => s end in
+    (if add_ft then Some ft else None, s)
+  else (None, s).
+
+(* comments / padding / symbolicExpressionSizes *)
+Definition split_otabs (s : st) (b nb : nat) (offset : Z) : st :=
+  set_otabs s (map (fun t =>
              if tab_truthy t then
                match aget b t with
                | Some ((_ :: _) as dm) =>
@@ -185,9 +181,10 @@ Definition split_block (s : st) (b : nat) (offset : Z) : result (nat * option ed
                         (aset b (dfilter (fun k => k <? offset) dm) t)
                | _ => t
                end
-             else t) (otabs s)) in
-  (* cfiDirectives: entries at the split offset are divided around .cfi_endproc *)
-  let s :=
+             else t) (otabs s)).
+
+(* cfiDirectives: entries at the split offset are divided around .cfi_endproc *)
+Definition split_cfi (s : st) (b nb : nat) (offset : Z) : st :=
     if tab_truthy (cfi s) then
       match aget b (cfi s) with
       | Some ((_ :: _) as dm) =>
@@ -199,7 +196,20 @@ Definition split_block (s : st) (b : nat) (offset : Z) : result (nat * option ed
           set_cfi s (aset nb movem (aset b keepm (cfi s)))
       | _ => s
       end
-    else s in
+    else s.
+
+Definition split_block (s : st) (b : nat) (offset : Z) : result (nat * option edge * st) :=
+  let x := the_blk s b in
+  if negb ((0 <=? offset) && (offset <=? bsize x)) then Err AssertErr
+  else
+  let end_split := offset =? bsize x in
+  let '(nb, s) := fresh s in
+  let s := set_blk s nb (mk_blk (bk x) (bbi x) (boff x + offset) (bsize x - offset)) in
+  let s := set_blk s b (mk_blk (bk x) (bbi x) (boff x) offset) in
+  let s := split_move_syms s b nb in
+  let '(added, s) := split_cfg s b nb (bkind_eqb (bk x) KCode) end_split in
+  let s := split_otabs s b nb offset in
+  let s := split_cfi s b nb offset in
   let s := order_insert_after s b [nb] in
   Ok (nb, added, s).
 
@@ -225,23 +235,18 @@ Definition are_joinable (s : st) (b1 b2 : nat) : bool * st :=
       else (true, s)
     else (true, s).
 
-(* returns None when the blocks are not joinable (UnjoinableBlocksError) *)
-Definition join_blocks (s : st) (b1 b2 : nat) : result (option st) :=
-  let '(ok, s) := are_joinable s b1 b2 in
-  if negb ok then Ok None
-  else
-  let x1 := the_blk s b1 in let x2 := the_blk s b2 in
-  do s <- do_retarget s b2 (Some b1) (negb (bsize x1 =? 0));
-  let s :=
-    if bkind_eqb (bk x2) KCode then
+Definition join_cfg (s : st) (b1 b2 : nat) (code : bool) (zero1 : bool) : st :=
+    if code then
       let s := fold_left (fun s e => if is_ft e && node_eqb (src e) (NB b1) then set_cfg s (cfg_discard e (cfg s)) else s) (in_edges s b2) s in
-      let s := if bsize x1 =? 0
+      let s := if zero1
                then fold_left (fun s e => set_cfg s (cfg_update_edge (cfg s) e (retarget_edge e (NB b1)))) (in_edges s b2) s
                else fold_left (fun s e => set_cfg s (cfg_discard e (cfg s))) (in_edges s b2) s in
       let s := fold_left (fun s e => set_cfg s (cfg_update_edge (cfg s) e (resource_edge e (NB b1)))) (out_edges s b2) s in
       remove_function_block_aux s b2
-    else s in
-  let s := set_otabs s (map (fun t =>
+    else s.
+
+Definition join_otabs (s : st) (b1 b2 : nat) (size1 : Z) : st :=
+  set_otabs s (map (fun t =>
              if tab_truthy t then
                match aget b2 t with
                | None => t
@@ -250,11 +255,12 @@ Definition join_blocks (s : st) (b1 b2 : nat) : result (option st) :=
                    match dm with
                    | [] => t
                    | _ => let old := match aget b1 t with Some d => d | None => [] end in
-                          aset b1 (dupdate old (drekey (fun k => bsize x1 + k) dm)) t
+                          aset b1 (dupdate old (drekey (fun k => size1 + k) dm)) t
                    end
                end
-             else t) (otabs s)) in
-  let s :=
+             else t) (otabs s)).
+
+Definition join_cfi (s : st) (b1 b2 : nat) (size1 : Z) : st :=
     if tab_truthy (cfi s) then
       match aget b2 (cfi s) with
       | None => s
@@ -264,20 +270,33 @@ Definition join_blocks (s : st) (b1 b2 : nat) : result (option st) :=
           | [] => set_cfi s t
           | _ => let old := match aget b1 t with Some d => d | None => [] end in
                  set_cfi s (aset b1 (fold_left (fun acc kv =>
-                                         let k := bsize x1 + fst kv in
+                                         let k := size1 + fst kv in
                                          dset k ((match dget k acc with Some l => l | None => [] end) ++ snd kv) acc) dm old) t)
           end
       end
-    else s in
-  do s <-
+    else s.
+
+Definition join_align (s : st) (b1 b2 : nat) (zero1 : bool) : result st :=
     match align s with
     | [] => Ok s
     | _ =>
         let a1 := match aget b1 (align s) with Some a => a | None => 1 end in
         let a2 := match aget b2 (align s) with Some a => a | None => 1 end in
         let s := set_align s (adel b2 (align s)) in
-        if a2 >? a1 then (if bsize x1 =? 0 then Ok (set_align s (aset b1 a2 (align s))) else Err AssertErr) else Ok s
-    end;
+        if a2 >? a1 then (if zero1 then Ok (set_align s (aset b1 a2 (align s))) else Err AssertErr) else Ok s
+    end.
+
+(* returns None when the blocks are not joinable (UnjoinableBlocksError) *)
+Definition join_blocks (s : st) (b1 b2 : nat) : result (option st) :=
+  let '(ok, s) := are_joinable s b1 b2 in
+  if negb ok then Ok None
+  else
+  let x1 := the_blk s b1 in let x2 := the_blk s b2 in
+  do s <- do_retarget s b2 (Some b1) (negb (bsize x1 =? 0));
+  let s := join_cfg s b1 b2 (bkind_eqb (bk x2) KCode) (bsize x1 =? 0) in
+  let s := join_otabs s b1 b2 (bsize x1) in
+  let s := join_cfi s b1 b2 (bsize x1) in
+  do s <- join_align s b1 b2 (bsize x1 =? 0);
   let s := set_blk s b1 (mk_blk (bk x1) (bbi x1) (boff x1) (bsize x1 + bsize x2)) in
   let s := match block_section s b2 with Some sec => order_remove s sec b2 | None => s end in
   let s := set_blk s b2 (mk_blk (bk x2) None (boff x2) (bsize x2)) in
@@ -401,32 +420,43 @@ Definition remove_aux_data_entries (s : st) (b : nat) : st :=
                             if (if code then Nat.leb 2 i else Nat.ltb i 2) then ndel b t else t)
                   (combine (seq 0 (length (misc s))) (misc s))).
 
+Definition remove_make_proxy (s : st) (to_proxy : bool) : option nat * st :=
+  if to_proxy then let '(p, s) := fresh s in (Some p, set_proxies s (nadd p (proxies s))) else (None, s).
+
+(* the `if can_remove:` part: symbols, incoming edges, function tables, entry point, alignment *)
+Definition remove_redirect (s : st) (b : nat) (proxy prev next_ : option nat) (to_proxy : bool) : result st :=
+  let sym_target := match proxy with Some p => Some p | None => match next_ with Some n => Some n | None => prev end end in
+  let at_end := match proxy, next_ with None, None => match prev with Some _ => true | None => false end | _, _ => false end in
+  do s <- do_retarget s b sym_target at_end;
+  let s := match proxy with
+           | Some p => retarget_incoming_edges s b (Some (NP p))
+           | None => match next_ with
+                     | Some n => if is_code s n then retarget_incoming_edges s b (Some (NB n)) else retarget_incoming_edges s b None
+                     | None => retarget_incoming_edges s b None
+                     end
+           end in
+  let nx := if to_proxy then None else next_ in
+  let s := update_functions_aux_data s b nx in
+  let s := match entry s with
+           | Some e => if Nat.eqb e b then set_entry s nx else s
+           | None => s
+           end in
+  Ok (set_align s (match align s with [] => [] | a => adel b a end)).
+
+(* a code block kept with size 0 gets a fallthrough edge to a fresh proxy *)
+Definition remove_mark_unknown (s : st) (b : nat) (code : bool) : st :=
+  if code then
+    let '(p, s) := fresh s in
+    set_proxies (set_cfg s (cfg_add (mk_edge' (NB b) (NP p) ET_FALLTHROUGH) (cfg s))) (nadd p (proxies s))
+  else s.
+
 (* remove_block(cache, block, retarget_to_proxy) -> whether it could be removed *)
 Definition remove_block (s : st) (b : nat) (to_proxy : bool) : result (bool * st) :=
   let '(prev, next_) := adjacent_blocks s b in
-  let '(proxy, s) := if to_proxy then let '(p, s) := fresh s in (Some p, set_proxies s (nadd p (proxies s))) else (None, s) in
+  let '(proxy, s) := remove_make_proxy s to_proxy in
   let cfid := required_cfi s b in
   let '(can, s) := can_remove_block s b to_proxy prev next_ cfid in
-  do s <-
-    (if can then
-       let sym_target := match proxy with Some p => Some p | None => match next_ with Some n => Some n | None => prev end end in
-       let at_end := match proxy, next_ with None, None => match prev with Some _ => true | None => false end | _, _ => false end in
-       do s <- do_retarget s b sym_target at_end;
-       let s := match proxy with
-                | Some p => retarget_incoming_edges s b (Some (NP p))
-                | None => match next_ with
-                          | Some n => if is_code s n then retarget_incoming_edges s b (Some (NB n)) else retarget_incoming_edges s b None
-                          | None => retarget_incoming_edges s b None
-                          end
-                end in
-       let nx := if to_proxy then None else next_ in
-       let s := update_functions_aux_data s b nx in
-       let s := match entry s with
-                | Some e => if Nat.eqb e b then set_entry s nx else s
-                | None => s
-                end in
-       Ok (set_align s (match align s with [] => [] | a => adel b a end))
-     else Ok s);
+  do s <- (if can then remove_redirect s b proxy prev next_ to_proxy else Ok s);
   let s := remove_outgoing_edges s b in
   let s := remove_aux_data_entries s b in
   let s := remove_cfi_directives s b cfid prev next_ in
@@ -437,7 +467,4 @@ Definition remove_block (s : st) (b : nat) (to_proxy : bool) : result (bool * st
   else
     let x := the_blk s b in
     let s := set_blk s b (mk_blk (bk x) (bbi x) (boff x) 0) in
-    if bkind_eqb (bk x) KCode then
-      let '(p, s) := fresh s in
-      Ok (false, set_proxies (set_cfg s (cfg_add (mk_edge' (NB b) (NP p) ET_FALLTHROUGH) (cfg s))) (nadd p (proxies s)))
-    else Ok (false, s).
+    Ok (false, remove_mark_unknown s b (bkind_eqb (bk x) KCode)).
